@@ -7,6 +7,7 @@ from pyvc.values import (Val, V, VNone, NONE, VBool, VInt, VFloat, VStr, VBytes,
 from pyvc.loader import ClassInfo, EnumInfo
 
 I = z3.IntSort()
+ALLOC_BASE_ = 1000000
 ARR_IV = z3.ArraySort(I, Val)
 ARR_VB = z3.ArraySort(Val, z3.BoolSort())
 ARR_VV = z3.ArraySort(Val, Val)
@@ -57,7 +58,7 @@ class HeapMixin(object):
       c = self.class_by_name(kind.arg) if kind.arg else None
       return VRef(c, term, nullable=kind.nullable)
     if t in ('list', 'dict', 'set', 'tuple'):
-      return VRef(t, term, nullable=kind.nullable, elem=kind.elem)
+      return VRef(t, term, nullable=kind.nullable, elem=kind.elem, keykind=kind.key)
     if t == 'fn':
       return VCallable(term, label=kind.arg or 'fn', nullable=kind.nullable)
     if t == 'val':
@@ -134,7 +135,7 @@ class HeapMixin(object):
     if t == 'str':
       need(Val.is_VS(term)); return VStr(Val.s(term))
     if t == 'bytes':
-      need(Val.is_VS(term)); return VBytes(Val.s(term))
+      need(Val.is_VY(term)); return VBytes(Val.y(term))
     if t == 'enum':
       e = self.class_by_name(hint.arg)
       need(z3.And(Val.is_VE(term), Val.e(term) == e.uid, Val.m(term) >= 0, Val.m(term) < len(e.members)))
@@ -148,7 +149,7 @@ class HeapMixin(object):
         r = Val.r(term)
       if t in ('ref', 'exc'):
         return VRef(self.class_by_name(hint.arg) if hint.arg else None, r, nullable=hint.nullable)
-      return VRef(t, r, nullable=hint.nullable, elem=hint.elem)
+      return VRef(t, r, nullable=hint.nullable, elem=hint.elem, keykind=hint.key)
     if t == 'fn':
       if hint.nullable:
         need(z3.Or(Val.is_VN(term), Val.is_VC(term)))
@@ -164,6 +165,8 @@ class HeapMixin(object):
     ref = VRef(cls, oid, exact=exact, elem=elem)
     if isinstance(cls, ClassInfo):
       st.axiom(st.classof(z3.IntVal(oid)) == cls.uid)
+    elif cls in ('list', 'dict', 'set', 'tuple'):
+      st.axiom(st.classof(z3.IntVal(oid)) == -vv.TYPE_IDS[cls])
     return ref
 
   def oid_of(self, ref):
@@ -187,8 +190,13 @@ class HeapMixin(object):
         if oid is None:
           raise Unsupported('python-side field %s on symbolic reference' % name)
         return st.pyheap.get((oid, name))
-      arr = st.harr((owner, name), kind.sort(), is_ref=kind.tag in ('ref', 'exc', 'list', 'dict', 'set', 'tuple'))
-      v = self.wrap(st, z3.Select(arr, obj.t), kind)
+      is_ref = kind.tag in ('ref', 'exc', 'list', 'dict', 'set', 'tuple')
+      arr = st.harr((owner, name), kind.sort(), is_ref=is_ref)
+      term = z3.Select(arr, obj.t)
+      if is_ref and z3.is_const(arr) and arr.decl().name().startswith('H0_'):
+        # ground instance of the pre-state freshness axiom (saves the solver an instantiation)
+        st.axiom(z3.And(term >= 0, term < ALLOC_BASE_))
+      v = self.wrap(st, term, kind)
       return v
     if oid is not None:
       return st.pyheap.get((oid, name))
@@ -265,7 +273,11 @@ class HeapMixin(object):
 
   def dict_keys(self, st, d):
     """Ghost list object holding the keys in insertion order (ref)."""
-    return VRef('list', z3.Select(st.harr(('dict', 'keys'), I, is_ref=True), d.t), elem=getattr(d, 'keykind', None))
+    arr = st.harr(('dict', 'keys'), I, is_ref=True)
+    term = z3.Select(arr, d.t)
+    if z3.is_const(arr) and arr.decl().name().startswith('H0_'):
+      st.axiom(z3.And(term >= 0, term < ALLOC_BASE_))
+    return VRef('list', term, elem=getattr(d, 'keykind', None))
 
   def dict_set_raw(self, st, d, dom=None, val=None, keys=None):
     if dom is not None:
@@ -285,6 +297,14 @@ class HeapMixin(object):
       self.dict_store(st, d, k, v)
     return d
 
+  def key_value(self, st, term, keykind):
+    """A dict key as a value: the raw term (no projection) with its declared shape recorded as tag knowledge."""
+    if keykind is not None and keykind.tag in ('str', 'int', 'bytes', 'bool', 'float'):
+      st.tags.setdefault(term.get_id(), keykind.tag)
+      st.axiom(vv.recog(keykind.tag, term))
+      return VVal(term)
+    return self.from_val(st, term, keykind)
+
   def dict_has(self, st, d, k):
     return z3.Select(self.dict_dom(st, d), self.to_val(st, k))
 
@@ -303,16 +323,23 @@ class HeapMixin(object):
                       z3.Store(self.dict_val(st, d), kt, self.to_val(st, v)))
 
   def dict_wf(self, st, d):
-    """Well-formedness of the key list w.r.t. the domain (assumed for pre-state dicts that are iterated)."""
+    """Well-formedness of the key list w.r.t. the domain (assumed for pre-state dicts that are iterated).
+
+    Skolemised: a position function pos with keys[pos(k)] == k for every k in the domain and pos(keys[i]) == i for every
+    index (hence distinct keys).  The function is remembered per dict so that invariants can use keypos(d, k)."""
     keys = self.dict_keys(st, d)
     n = self.list_len(st, keys)
     items = self.list_items(st, keys)
     dom = self.dict_dom(st, d)
-    i, j = z3.Ints('wf_i wf_j')
+    pos = z3.Function('keypos!%d' % fresh('x', I).get_id(), Val, I)
+    st.ghost[('$keypos', d.t.get_id())] = pos
+    i = z3.Int('wf_i')
     k = z3.Const('wf_k', Val)
+    shape = []
+    kk = getattr(d, 'keykind', None)
+    if kk is not None and kk.tag in vv.RECOG:
+      shape.append(z3.ForAll([k], z3.Implies(z3.Select(dom, k), vv.recog(kk.tag, k))))
     return z3.And(
-        n >= 0, keys.t != 0,
-        z3.ForAll([i], z3.Implies(z3.And(0 <= i, i < n), z3.Select(dom, z3.Select(items, i)))),
-        z3.ForAll([i, j], z3.Implies(z3.And(0 <= i, i < j, j < n), z3.Select(items, i) != z3.Select(items, j))),
-        z3.ForAll([k], z3.Implies(z3.Select(dom, k),
-                                  z3.Exists([i], z3.And(0 <= i, i < n, z3.Select(items, i) == k)))))
+        n >= 0, keys.t != 0, *(shape + [
+        z3.ForAll([i], z3.Implies(z3.And(0 <= i, i < n), z3.And(z3.Select(dom, z3.Select(items, i)), pos(z3.Select(items, i)) == i))),
+        z3.ForAll([k], z3.Implies(z3.Select(dom, k), z3.And(pos(k) >= 0, pos(k) < n, z3.Select(items, pos(k)) == k)))]))
